@@ -1,6 +1,62 @@
 """C08 — TensorFrame concatenation, equality and column lookup laws."""
 from __future__ import annotations
 
+# Every raise / assert / early return / special-case branch / dtype-sensitive decision of the anchored code
+# (torch_frame/data/tensor_frame.py, torch_frame/utils/concat.py), the generator stream that reaches it, and the oracle
+# key that notices when it is removed, loosened or replaced by a default.  "(model)" = also compared with the Coq model.
+ERROR_PATHS = [
+    # --- TensorFrame.validate
+    ("validate: feat_dict.keys() != col_names_dict.keys() -> ValueError", "malformed/ctor:key-only-in-*", "accepts:ctor:key-* (model)"),
+    ("validate: col_names not a list -> ValueError", "not generated: a non-list name container is outside the property "
+     "(dict[stype, list[str]])", "-"),
+    ("validate: tensor.dim() < 2 -> ValueError", "malformed/val:ndim", "accepts:val:ndim (oracle only: the model has no 1-D feature)"),
+    ("validate: num_cols != tensor.size(1) -> ValueError, for EVERY tensor of a dict", "malformed/ctor:names+1|names-1:*, "
+     "ctor:dict-2nd-cols*", "accepts:ctor:* (model)"),
+    ("validate: tensor.size(0) != num_rows -> ValueError, explicit num_rows or first feature", "malformed/ctor:num_rows*|"
+     "rows-differ:*|dict-2nd-rows*", "accepts:ctor:* (model)"),
+    ("validate: empty stype -> RuntimeError", "malformed/ctor:empty-stype, val:empty-stype", "accepts:*empty-stype (model)"),
+    ("validate: len(y) != num_rows -> ValueError", "malformed/ctor:y+1|y-1:*", "accepts:ctor:y* (model)"),
+    ("num_rows: explicit / is_empty -> 0 / first feature / first entry of a dict", "feature-less frames, dict-first frames, "
+     "boundary/*", "props-wrong, frame-wrong:*, roundtrip:*:featureless"),
+    # --- get_col_feat
+    ("get_col_feat: unknown name -> ValueError", "lookup/* + 'no_such_column', reuse/lookup-history (names of other frames)",
+     "lookup-accepts-missing (model)"),
+    ("get_col_feat: dict / _MultiTensor / Tensor branches (asserts are type checks)", "lookup/* on every storage kind",
+     "lookup-wrong:dict|mnt|met|dense (model)"),
+    # --- __eq__
+    ("__eq__: not a TensorFrame -> False", "every case (eq_other: 5, None, str, dict, list)", "eq-nonframe"),
+    ("__eq__: len differs -> False", "perturb/drop-row|len, boundary/rows-0-vs-1", "eq-wrong:* (model)"),
+    ("__eq__: y None vs not None (both directions) -> False", "perturb/y-none|y-added, boundary/zero-rows:y-*", "eq-wrong:y-* (model)"),
+    ("__eq__: allclose(other.y, self.y) WITHOUT equal_nan", "perturb/y-value, perturb/nan-target (model only)", "eq-wrong:y-value (model)"),
+    ("__eq__: col_names_dict differs -> False", "perturb/name|name-swap|name-case, boundary/zero-rows:name*", "eq-wrong:name* (model)"),
+    ("__eq__: storage kind of a stype differs (isinstance checks) -> False", "perturb/storage-kind", "eq-wrong:storage-kind (model)"),
+    ("__eq__: dense shape differs -> False", "perturb/inner, drop-row", "eq-wrong:inner (model)"),
+    ("__eq__: allclose(..., equal_nan=True) per storage kind; dict keys differ -> False", "perturb/cell|nan|boundary|"
+     "met-boundary|dict-key|tol-*", "eq-wrong:* (model)"),
+    # --- __getitem__ / _apply / device transfer
+    ("__getitem__: int -> [int]; dict branch; explicit _num_rows recomputed", "ESel parts of every index kind, C07", "cat-wrong / frame-wrong, C07 keys"),
+    ("to / cpu / __copy__", "op via (copy, to, cpu, to_kw) on parts and operands", "all keys (identity in the reference)"),
+    # --- torch_frame.cat
+    ("cat: dispatch on isinstance(lst[0], TensorFrame); empty list -> IndexError / RuntimeError", "malformed/cat:empty:0|1, "
+     "malformed/empty-list", "accepts:cat:empty* (model)"),
+    ("_cat_tensor_frame: dim not in (0, 1) -> ValueError", "malformed/cat:dim*, malformed/dim", "model only (not demanded by the property)"),
+    ("_cat_tensor_data: single element returned as is", "partitions into 1 part, stypes present in one part only", "cat-wrong:*, roundtrip:*"),
+    ("_cat_tensor_data: class mismatch -> RuntimeError", "malformed/row:kind", "model only (not demanded)"),
+    ("_cat_tensor_data: dict key sets differ -> RuntimeError", "indep/dict-keys(:cols)", "accepts:dict-keys* (model)"),
+    ("MultiEmbeddingTensor.cat dim 0: offsets differ -> RuntimeError", "indep/met-widths", "accepts:met-widths (model: RaggedCat)"),
+    ("_cat_row: col_names_dict of a later part differs -> RuntimeError", "malformed/cat:row:names@0|1|2:*, row:names|ncols|stypes", "accepts:* (model)"),
+    ("_cat_row: first y None and a later one not / first y present and a later one None -> RuntimeError",
+     "malformed/cat:row:y[...]:* incl. all-NaN / partly-NaN / 0-row targets", "accepts:cat:row:y* (model)"),
+    ("_cat_row: y = torch.cat(ys) (targets included, NaN kept)", "rowpart/*, boundary/nan-target-rows", "cat-wrong:dim0 (y and ydt compared directly)"),
+    ("_cat_row / _cat_col: feature-less result carries num_rows", "feature-less rowpart / colpart", "roundtrip:*:featureless (model)"),
+    ("_cat_col: more than one part with y is not None -> RuntimeError -- an all-NaN or 0-element y IS a target",
+     "malformed/cat:col:two-y|three-y:*, cat:col:y-conflict:*", "accepts:cat:col:* (model)"),
+    ("_cat_col: y of the single part that has one, whatever it holds", "colpart/*, boundary/nan-target-cols:*, boundary/zero-row-colpart:*",
+     "cat-wrong:dim1 (y, ydt compared directly)"),
+    ("_cat_col: duplicates within a stype / across stypes -> RuntimeError", "malformed/cat:col:dup-*", "accepts:cat:col:dup-* (model)"),
+    ("_cat_col: parts of different row counts -> RuntimeError", "malformed/cat:col:rows*, col:rows", "accepts:*rows* (model)"),
+]
+
 # Clause-by-clause coverage of the property statement (properties.jsonl C08): oracle keys that judge the clause and the
 # generator streams / drawn forms that exercise it.  stats() counts every form; sanity() fails closed when one is 0.
 CLAUSES = [
@@ -219,6 +275,10 @@ def perturb(rng, fr, only=None):
         opts += [(2, "len")]
     if g["feats"]:
         opts += [(3, "name-case")]
+    if any(f["kind"] == "dense" and f["inner"] == 0 and f["cells"] for f in g["feats"]):
+        opts += [(3, "storage-kind")]
+    if any(f["kind"] == "dense" and f["inner"] > 0 for f in g["feats"]):
+        opts += [(3, "inner")]
     if only is not None:
         opts = [(w, k) for w, k in opts if k in only] or [(1, "same:copy")]
     sub = rng.wpick(opts)
@@ -288,6 +348,17 @@ def perturb(rng, fr, only=None):
         f = rng.pick(g["feats"])
         j = rng.randint(0, len(f["names"]) - 1)
         f["names"][j] = f["names"][j] + "_x"
+        return sub, g
+    if sub == "storage-kind":
+        # the same stype, names and scalars, held by a MultiNestedTensor instead of a plain tensor
+        f = rng.pick([x for x in g["feats"] if x["kind"] == "dense" and x["inner"] == 0 and x["cells"]])
+        f["kind"] = "mnt"
+        return sub, g
+    if sub == "inner":
+        # a dense feature with one more trailing entry per cell (shape differs)
+        f = rng.pick([x for x in g["feats"] if x["kind"] == "dense" and x["inner"] > 0])
+        f["inner"] += 1
+        f["cells"] = [[cell + [cell[-1]] for cell in row] for row in f["cells"]]
         return sub, g
     if sub == "name-case":
         f = rng.pick(g["feats"])
@@ -857,12 +928,258 @@ def decorate(rng, e):
     return e
 
 
+CTOR_WHATS = ["num_rows+1", "num_rows-1", "num_rows=0", "y+1", "y-1", "rows-differ:second", "rows-differ:first",
+              "names+1", "names-1", "key-only-in-feats", "key-only-in-names"]
+STYPE_OF_KIND = {"dense": ["numerical", "categorical", "timestamp"], "mnt": ["multicategorical", "sequence_numerical"],
+                 "met": ["embedding", "text_embedded", "image_embedded"], "dict": ["text_tokenized"]}
+
+
+def ctor_rejections(rng):
+    """The whole family of construction rejections, deterministically, for every storage kind: explicit num_rows of
+    n+1 / n-1 / 0 against n feature rows, a target of n+1 / n-1 rows, two stypes of different row counts (either order),
+    a name list one longer / one shorter than the feature's columns, a stype key present in only one of the two dicts."""
+    out = []
+    for kind in ("dense", "mnt", "met", "dict"):
+        for what in CTOR_WHATS:
+            n = rng.randint(2, 4)
+            slots = F.Slots(rng)
+            st = rng.pick(STYPE_OF_KIND[kind])
+            f = F.gen_feat(rng, slots, st, n, ["k0", "k1"])
+            other_st = rng.pick([s_ for s_ in ("numerical", "categorical") if s_ != st])
+            fr = {"n": n, "feats": [f], "y": None, "ydtype": "float", "num_rows": None, "ctor": rng.pick(F.CTORS[:3])}
+            if rng.chance(0.5) and not what.startswith("rows-differ") and not what.startswith("key"):
+                fr["feats"].append(F.gen_feat(rng, slots, other_st, n, ["o0"]))
+                if rng.chance(0.5):
+                    fr["feats"].reverse()
+            if what.startswith("num_rows"):
+                fr["num_rows"] = {"num_rows+1": n + 1, "num_rows-1": n - 1, "num_rows=0": 0}[what]
+                if rng.chance(0.3):
+                    fr["y"] = [float(i) for i in range(fr["num_rows"])]       # a target that agrees with the explicit count
+            elif what in ("y+1", "y-1"):
+                fr["y"] = [float(i) for i in range(n + (1 if what == "y+1" else -1))]
+                if rng.chance(0.4):
+                    fr["num_rows"] = n
+            elif what.startswith("rows-differ"):
+                g = F.gen_feat(rng, F.Slots(rng), other_st, n + rng.pick([1, -1]), ["o0"])
+                fr["feats"] = [f, g] if what.endswith("second") else [g, f]
+                fr["n"] = len(F._feat_shape_from_desc(fr["feats"][0])[0][3])
+            elif what in ("names+1", "names-1"):
+                if kind == "dense":
+                    f["ncols"] = 2
+                f["names"] = ["k0", "k1", "k2"] if what == "names+1" else ["k0"]
+            elif what == "key-only-in-feats":
+                fr["feats"].append(F.gen_feat(rng, slots, other_st, n, ["o0"]))
+                fr["names_override"] = [(f["stype"], f["names"])]
+            else:
+                fr["names_override"] = [(f["stype"], f["names"]), (other_st, ["ghost"])]
+            out.append({"kind": "malformed", "sub": f"ctor:{what}:{kind}", "a": B(fr), "b": None, "lookups": [], "meta": {}})
+    return out
+
+
+DICT2_WHATS = ["dict-2nd-rows+1", "dict-2nd-rows-1", "dict-2nd-cols+1", "dict-2nd-cols-1"]
+Y_KINDS = ["all-nan", "part-nan", "zero-row-float", "zero-row-long"]
+
+
+def y_of(kind, n):
+    if kind == "all-nan":
+        return "float", [None] * n
+    if kind == "part-nan":
+        return "float", [None if i % 2 == 0 else float(i) for i in range(n)]
+    return ("float" if kind == "zero-row-float" else "int"), []
+
+
+def nan_target_cases(rng):
+    """targets that hold only NaN / some NaN / no element at all ARE targets: conflicts are rejected (both orders), and row
+    / column partitions give them back (target on the first / last / a column-less part)"""
+    out = []
+    for yk in Y_KINDS:
+        zero = yk.startswith("zero-row")
+        for kind in ("dense", "mnt", "met", "dict"):
+            n = rng.randint(2, 3)
+            slots = F.Slots(rng)
+            st = rng.pick(STYPE_OF_KIND[kind])
+            f = F.gen_feat(rng, slots, st, n, ["a", "b"])
+            ydt, yv = y_of(yk, n)
+            full = {"n": n, "feats": [f], "y": yv if not zero else [0.0] * n if ydt == "float" else [0] * n, "ydtype": ydt,
+                    "num_rows": None}
+
+            def wrap(e):
+                return {"op": "sel", "of": e, "idx": slice_ix(0, 0)} if zero else e
+            left = dict(full, feats=[sub_cols(f, 0, 1)])
+            right = dict(full, feats=[sub_cols(f, 1, 2)])
+            empty = {"n": n, "feats": [], "y": None, "ydtype": ydt, "num_rows": n}
+            # conflicts: the NaN / empty target next to an ordinary one, both orders
+            other_y = dict(right, y=[float(i) for i in range(n)] if ydt == "float" else list(range(n)))
+            for order in ("first", "last"):
+                parts = [wrap(B(left)), wrap(B(other_y))]
+                if order == "last":
+                    parts.reverse()
+                out.append({"kind": "malformed", "sub": f"cat:col:y-conflict:{yk}:{order}:{kind}",
+                            "a": {"op": "cat", "parts": parts, "dim": 1}, "b": None, "lookups": [], "meta": {}})
+            # column partition: the target on the first / the last / a column-less part
+            for where in ("first", "last", "column-less"):
+                if where == "first":
+                    ps = [left, dict(right, y=None)]
+                elif where == "last":
+                    ps = [dict(left, y=None), right]
+                else:
+                    ps = [dict(left, y=None), dict(empty, y=full["y"]), dict(right, y=None)]
+                out.append({"kind": "boundary", "sub": f"nan-target-cols:{yk}:{where}:{kind}",
+                            "a": {"op": "cat", "parts": [wrap(B(p_)) for p_ in ps], "dim": 1}, "b": wrap(B(full)),
+                            "lookups": [], "meta": {}})
+            # row partition and mixed presence along rows
+            if not zero:
+                out.append({"kind": "boundary", "sub": f"nan-target-rows:{yk}:{kind}",
+                            "a": {"op": "cat", "parts": [{"op": "sel", "of": B(full), "idx": slice_ix(0, 1)},
+                                                        {"op": "sel", "of": B(full), "idx": slice_ix(1, None)}], "dim": 0},
+                            "b": B(full), "lookups": [], "meta": {}})
+            out.append({"kind": "malformed", "sub": f"cat:row:y-mixed:{yk}:{kind}",
+                        "a": {"op": "cat", "parts": [wrap(B(dict(full, y=None))), wrap(B(full))], "dim": 0}, "b": None,
+                        "lookups": [], "meta": {}})
+    return out
+
+
+def nan_perturb_cases(rng):
+    """a missing entry against a value in ONE cell, for every float storage kind, in both directions (the comparison runs
+    in both operand orders): NaN on the left / on the right, value 0.0 included"""
+    out = []
+    for st in ("numerical", "sequence_numerical", "embedding", "text_embedded"):
+        for direction in ("nan->value", "value->nan"):
+            for rep in range(3):
+                n = rng.randint(1, 3)
+                slots = F.Slots(rng)
+                f = F.gen_feat(rng, slots, st, n, ["a", "b"], miss_p=0.0)
+                spots = [(i, j, k) for i, row in enumerate(f["cells"]) for j, cell in enumerate(row) for k in range(len(cell))]
+                if not spots:
+                    continue
+                i, j, k = rng.pick(spots)
+                g = copy.deepcopy(f)
+                if direction == "nan->value":
+                    f["cells"][i][j][k] = None
+                    g["cells"][i][j][k] = rng.pick([0.0, 3.0, g["cells"][i][j][k]])
+                else:
+                    g["cells"][i][j][k] = None
+                    if rng.chance(0.3):
+                        f["cells"][i][j][k] = 0.0
+                fa = {"n": n, "feats": [f], "y": None, "ydtype": "float", "num_rows": None}
+                fb = dict(fa, feats=[g])
+                if rep == 2:
+                    other = F.gen_feat(rng, slots, "categorical", n, ["o"])
+                    fa, fb = dict(fa, feats=[other, f]), dict(fb, feats=[copy.deepcopy(other), g])
+                out.append({"kind": "perturb", "sub": f"nan-cell:{direction}:{F.KIND_OF[st]}", "a": B(fa), "b": B(fb),
+                            "lookups": [], "meta": {}})
+    return out
+
+
+def misc_rejections(rng):
+    out = []
+    for kind in ("dense", "mnt", "met", "dict"):
+        n = rng.randint(1, 3)
+        slots = F.Slots(rng)
+        f = F.gen_feat(rng, slots, rng.pick(STYPE_OF_KIND[kind]), n, ["a"])
+        fr = {"n": n, "feats": [f], "y": None, "ydtype": "float", "num_rows": None}
+        st = "categorical" if f["stype"] != "categorical" else "numerical"
+        g = dict(fr, feats=[f, {"stype": st, "kind": "dense", "dtype": F.DTYPE_OF[st], "names": [], "inner": 0, "ncols": 0,
+                                "cells": [[] for _ in range(n)]}])
+        out.append({"kind": "malformed", "sub": f"ctor:empty-stype:{kind}", "a": B(g), "b": None, "lookups": [], "meta": {}})
+        for dim in (2, -1, -2):
+            out.append({"kind": "malformed", "sub": f"cat:dim{dim}:{kind}", "a": {"op": "cat", "parts": [B(fr), B(fr)], "dim": dim},
+                        "b": None, "lookups": [], "meta": {}})
+    return out
+
+
+CAT_WHATS = ["row:y[N,y]", "row:y[y,N]", "row:y[N,N,y]", "row:y[N,y,y]", "row:y[y,N,y]", "row:names@0", "row:names@1",
+             "row:names@2", "col:two-y", "col:three-y", "col:dup-within", "col:dup-across", "col:rows+1", "col:rows-1",
+             "empty:0", "empty:1"]
+
+
+def dict2_rejections(rng):
+    """a dict-valued feature whose SECOND entry disagrees with the frame on rows or columns (the first is consistent)"""
+    out = []
+    for what in DICT2_WHATS:
+        for with_other in (False, True):
+            n = rng.randint(2, 4)
+            slots = F.Slots(rng)
+            f = F.gen_feat(rng, slots, "text_tokenized", n, ["t0", "t1"])
+            key = f["keys"][1]
+            m = f["comps"][key]
+            if what == "dict-2nd-rows+1":
+                f["comps"][key] = m + [copy.deepcopy(m[-1])]
+            elif what == "dict-2nd-rows-1":
+                f["comps"][key] = m[:-1]
+            elif what == "dict-2nd-cols+1":
+                f["comps"][key] = [row + [list(row[-1])] for row in m]
+            else:
+                f["comps"][key] = [row[:-1] for row in m]
+            fr = {"n": n, "feats": [f], "y": None, "ydtype": "float", "num_rows": rng.pick([None, n])}
+            if with_other:
+                fr["feats"].insert(rng.randint(0, 1), F.gen_feat(rng, slots, "numerical", n, ["o0"]))
+            out.append({"kind": "malformed", "sub": f"ctor:{what}", "a": B(fr), "b": None, "lookups": [], "meta": {}})
+    return out
+
+
+def cat_rejections(rng):
+    """the family of concatenation rejections, deterministically, on frames of every storage kind"""
+    out = []
+    for kinds in (["dense"], ["mnt"], ["met"], ["dict"]):
+        for what in CAT_WHATS:
+            n = rng.randint(1, 3)
+
+            def mk(names, with_y, rows=n, prefix_st=None):
+                slots = F.Slots(rng)
+                st = rng.pick(STYPE_OF_KIND[kinds[0]]) if prefix_st is None else prefix_st
+                fr = {"n": rows, "feats": [F.gen_feat(rng, slots, st, rows, names)], "y": None, "ydtype": "float",
+                      "num_rows": None}
+                if with_y:
+                    fr["y"] = [float(i) for i in range(rows)]
+                return fr
+            st0 = rng.pick(STYPE_OF_KIND[kinds[0]])
+            if what.startswith("row:y"):
+                pat = what[6:-1].split(",")
+                parts = [mk(["a", "b"], p_ == "y", prefix_st=st0) for p_ in pat]
+                e = {"op": "cat", "parts": [B(p_) for p_ in parts], "dim": 0}
+            elif what.startswith("row:names@"):
+                j = int(what[-1])
+                parts = [mk(["a", "b"], True, prefix_st=st0) for _ in range(3)]
+                parts[j]["feats"][0]["names"] = ["a", "B"]
+                e = {"op": "cat", "parts": [B(p_) for p_ in parts], "dim": 0}
+            elif what in ("col:two-y", "col:three-y"):
+                k = 2 if what == "col:two-y" else 3
+                parts = [mk([f"p{t}"], True, prefix_st=st0) for t in range(k)]
+                if rng.chance(0.5):
+                    parts.insert(rng.randint(0, k), mk(["q"], False, prefix_st=st0))
+                e = {"op": "cat", "parts": [B(p_) for p_ in parts], "dim": 1}
+            elif what == "col:dup-within":
+                parts = [mk(["a", "b"], False, prefix_st=st0), mk(["c", "a"], False, prefix_st=st0)]
+                e = {"op": "cat", "parts": [B(p_) for p_ in parts], "dim": 1}
+            elif what == "col:dup-across":
+                other = rng.pick([s_ for s_ in ("numerical", "categorical", "embedding") if s_ != st0])
+                parts = [mk(["a", "b"], False, prefix_st=st0), mk(["c", "b"], False, prefix_st=other)]
+                if rng.chance(0.5):
+                    parts.reverse()
+                e = {"op": "cat", "parts": [B(p_) for p_ in parts], "dim": 1}
+            elif what.startswith("col:rows"):
+                d_ = 1 if what.endswith("+1") else -1
+                if n + d_ < 1:
+                    d_ = 1
+                parts = [mk(["a"], False, prefix_st=st0), mk(["b"], False, rows=n + d_, prefix_st=st0)]
+                if rng.chance(0.5):
+                    parts.reverse()
+                e = {"op": "cat", "parts": [B(p_) for p_ in parts], "dim": 1}
+            else:
+                e = {"op": "cat", "parts": [], "dim": int(what[-1])}
+            out.append({"kind": "malformed", "sub": f"cat:{what}:{kinds[0]}", "a": e, "b": None, "lookups": [], "meta": {}})
+    return out
+
+
 def generate(rng, tier):
-    n = 800 if tier == "quick" else 25000
+    n = 620 if tier == "quick" else 25000
     cases = [rng.wpick(GENS)(rng) for _ in range(n)]
     for c in cases:
         if c["kind"] in ("rowpart", "colpart", "perturb", "lookup", "indep", "boundary"):
             c["a"], c["b"] = decorate(rng, c["a"]), decorate(rng, c["b"])
+    cases += ctor_rejections(rng) + dict2_rejections(rng) + cat_rejections(rng) + nan_target_cases(rng) + misc_rejections(rng) \
+        + nan_perturb_cases(rng)
     if tier == "thorough":
         cases += exhaustive(rng)
     return cases
@@ -948,6 +1265,28 @@ def sanity(cases, obss):
                + ["cat:list", "cat:tuple", "cat:kw", "cat:utils"]):
         if d["forms"].get(f_, 0) == 0:
             probs.append(f"call form {f_} never drawn")
+    for kind_ in ("dense", "mnt", "met", "dict"):
+        for what in CTOR_WHATS:
+            if d["subkinds"].get(f"malformed/ctor:{what}:{kind_}", 0) == 0:
+                probs.append(f"construction rejection {what} on {kind_} never drawn")
+    for what in DICT2_WHATS:
+        if d["subkinds"].get(f"malformed/ctor:{what}", 0) == 0:
+            probs.append(f"construction rejection {what} never drawn")
+    for kind_ in ("dense", "mnt", "met", "dict"):
+        for what in CAT_WHATS:
+            if d["subkinds"].get(f"malformed/cat:{what}:{kind_}", 0) == 0:
+                probs.append(f"concatenation rejection {what} on {kind_} never drawn")
+    for yk in Y_KINDS:
+        for pre in ("malformed/cat:col:y-conflict:%s:first", "malformed/cat:col:y-conflict:%s:last",
+                    "boundary/nan-target-cols:%s:first", "boundary/nan-target-cols:%s:last",
+                    "boundary/nan-target-cols:%s:column-less", "malformed/cat:row:y-mixed:%s"):
+            if not any(k_.startswith(pre % yk) and v_ > 0 for k_, v_ in d["subkinds"].items()):
+                probs.append(f"stream {pre % yk} never drawn")
+    for k in ("perturb/storage-kind", "perturb/inner", "malformed/ctor:empty-stype", "malformed/cat:dim",
+              "perturb/nan-cell:nan->value:dense", "perturb/nan-cell:value->nan:dense", "perturb/nan-cell:nan->value:mnt",
+              "perturb/nan-cell:value->nan:mnt", "perturb/nan-cell:nan->value:met", "perturb/nan-cell:value->nan:met"):
+        if not any(k_.startswith(k) and v_ > 0 for k_, v_ in d["subkinds"].items()):
+            probs.append(f"stream {k} never drawn")
     if d["ne_checks"] == 0 or d["nonframe_eq_checks"] == 0:
         probs.append("!= / __neq__ / comparison with a non-frame never observed")
     return probs
@@ -1132,7 +1471,7 @@ def oracle(case, obs):
     kind, sub = case.get("as", case["kind"]), case["sub"]
     if kind == "boundary":
         kind = "perturb" if sub.split(":")[0] in ("zero-rows", "one-row", "rows-0-vs-1") else \
-            ("colpart" if sub.endswith(":cols") else "rowpart")
+            ("colpart" if (sub.endswith(":cols") or sub.startswith("nan-target-cols")) else "rowpart")
         sub = "boundary:" + sub
     kd = kinds_of_expr(case["a"])
     fl = ":featureless" if kd.replace("|", "").replace("featureless", "") == "" else ""
@@ -1440,7 +1779,7 @@ def coq_term_main(case, obs):
         return "(" + " && ".join(terms) + ")"
     if not expr_modelable(case["a"]) or not expr_modelable(case["b"]):
         return None
-    if case["sub"] in ("tol-below", "tol-above"):
+    if "tol-below" in case["sub"] or "tol-above" in case["sub"]:
         return None      # off the 1/8 grid: `close` is a parameter of the model; torch's decision is judged by the oracle
     oa = obs["a"]
     if oa["ok"] and oa.get("frame") is None:
